@@ -873,6 +873,86 @@ fn threads_case(ids: &[u64], spin: u32) -> Vec<String> {
 
 // ------------------------------------------------------------------------------------------------
 
+/// Real `Pipeline`, current-thread runtime: the submitting task is descheduled at every await point of
+/// `Pipeline::process` in turn while the pipeline thread keeps running. The forced yield comes from tokio's
+/// cooperative budget (128 units per task poll, every channel / lock operation takes one; an operation that finds
+/// the budget empty yields): the submitter burns `used` units first. While it is descheduled the only runtime
+/// thread is blocked until the pipeline thread has committed the ingest of the operation (store commit counter)
+/// plus a grace period — or, if nothing was sent yet, for a short while.
+fn descheduled_submitter_sweep(out: &mut Out, rt: &tokio::runtime::Runtime, sweep: std::ops::RangeInclusive<u32>) {
+    use p2panda::operation::LogId;
+    use p2panda_core::test_utils::TestLog;
+    use p2panda_core::traits::Digest;
+    use p2panda_core::{PruneFlag, Topic};
+    use p2panda_store::sqlite::verif_hooks::commit_count;
+    use p2panda_store::SqliteStore;
+    ctx_reset(0);
+    let answers: Vec<(u32, String, bool)> = rt.block_on(async {
+        let store = SqliteStore::temporary().await;
+        let tasks = TaskTracker::new();
+        let pipeline = Pipeline::<LogId, (), Topic>::new(store, tasks.clone());
+        let topic = Topic::random();
+        // warm-up: the pipeline thread is up and has processed something
+        let warm = TestLog::new().operation(b"warm-up", ());
+        let _ = tokio::time::timeout(Duration::from_secs(20), pipeline.process(new_event(warm, LogId::from_topic(topic), topic, PruneFlag::default()))).await;
+        let mut res = vec![];
+        for used in sweep {
+            let op = TestLog::new().operation(format!("descheduled {used}").as_bytes(), ());
+            let want = op.hash;
+            let ev = new_event(op, LogId::from_topic(topic), topic, PruneFlag::default());
+            let p = pipeline.clone();
+            let commits_before = commit_count();
+            let submitter = tokio::spawn(async move {
+                for _ in 0..used {
+                    tokio::task::coop::consume_budget().await;
+                }
+                p.process(ev).await
+            });
+            // let the submitter run until it yields for the first time …
+            tokio::task::yield_now().await;
+            // … and keep it descheduled: block this (the only) runtime thread while the pipeline thread works
+            let t0 = std::time::Instant::now();
+            let mut sent_and_ingested = false;
+            while t0.elapsed() < Duration::from_millis(400) {
+                if commit_count() > commits_before {
+                    sent_and_ingested = true;
+                    break;
+                }
+                std::thread::sleep(Duration::from_millis(2));
+            }
+            if sent_and_ingested {
+                std::thread::sleep(Duration::from_millis(60)); // mark_as_done follows the commit immediately
+            }
+            let r = tokio::time::timeout(Duration::from_secs(4), submitter).await;
+            let word = match r {
+                Ok(Ok(ev)) if ev.hash() == want => "d1".to_string(),
+                Ok(Ok(_)) => "foreign".to_string(),
+                Ok(Err(_)) => "panic".to_string(),
+                Err(_) => "stuck".to_string(),
+            };
+            res.push((used, word, sent_and_ingested));
+        }
+        res
+    });
+    for (used, word, window) in answers {
+        out.count("desched:cases");
+        if window {
+            out.count("desched:pipeline-finished-while-submitter-descheduled");
+        }
+        let req = "P 1".to_string();
+        let n = out.case(&req, &word, window);
+        if word != "d1" {
+            out.oracle_fail(
+                n,
+                if word == "stuck" { "result-dropped-untracked" } else { "desched-foreign-or-panic" },
+                &format!("submitter descheduled inside Pipeline::process after using {used} budget units: the pipeline thread finished the operation meanwhile (ingest committed: {window}) and process() never returned — mark_as_done ran before the task was tracked, its result was dropped"),
+                &format!("{req} (used_budget={used})"),
+                &word,
+            );
+        }
+    }
+}
+
 /// Public path, no schedule points: `k` OS threads released by a barrier call `Pipeline::process` with the SAME
 /// operation (fresh operation every round, one pipeline for all rounds). Returns the number of rounds run.
 fn stress_same_operation(out: &mut Out, rt: &tokio::runtime::Runtime, rounds: usize, k: usize) {
@@ -1000,6 +1080,9 @@ fn main() {
     };
     stress_same_operation(&mut out, &live, rounds, k);
 
+    // 0d. real Pipeline, the submitter descheduled at each await point of process() while the pipeline thread runs on
+    descheduled_submitter_sweep(&mut out, &live, if quick { 116..=130 } else { 96..=140 });
+
     // 1. exhaustive: one submitter with every mark_as_done sub-step; two submitters (same id / different ids)
     let mut exhaustive = true;
     exhaustive &= enumerate(&mut out, &paused, &[1], false, 100_000, "exh1-fine");
@@ -1056,7 +1139,7 @@ fn main() {
     }
 
     out.finish(
-        "tracker-level: every maximal interleaving of track/send/ready(check | register+wait) with recv/remove/set-result/notify for 1 submitter (all sub-steps) and 2 submitters (same id and different ids), random schedules for 2-4 submitters incl. not-enabled steps; real Pipeline thread with submitters parked between check and wait; free-running OS threads (thorough). track calls of one operation queued on the tracker lock and released together; barrier-released threads submitting the SAME operation through Pipeline::process; non-trivial = mark_as_done set the result or notified while a submitter of that operation sat between its result check and its wait, or >= 2 track calls were queued on the lock at once (tracker level), a same-operation stress round, or a submitter was parked there until the pipeline thread went idle (pipeline level)",
+        "tracker-level: every maximal interleaving of track/send/ready(check | register+wait) with recv/remove/set-result/notify for 1 submitter (all sub-steps) and 2 submitters (same id and different ids), random schedules for 2-4 submitters incl. not-enabled steps; real Pipeline thread with submitters parked between check and wait; free-running OS threads (thorough). track calls of one operation queued on the tracker lock and released together; barrier-released threads submitting the SAME operation through Pipeline::process; the submitter descheduled (cooperative-budget exhaustion sweep) at every await point of Pipeline::process while the pipeline thread finishes the operation; non-trivial = mark_as_done set the result or notified while a submitter of that operation sat between its result check and its wait, or >= 2 track calls were queued on the lock at once (tracker level), a same-operation stress round, or a submitter was parked there until the pipeline thread went idle (pipeline level)",
         false,
     );
 }
